@@ -166,6 +166,10 @@ def base_cfg(rng, name, nettype, algo, aw):
         routing["num_vc_id_bits"] = rng.choice([1, 2])
     if rng.random() < 0.05:
         routing["rob_idx_bits"] = rng.choice([2, 4])
+    if rng.random() < 0.06:
+        # derived fields the schema accepts in the description (floogen recomputes them)
+        k = rng.choice(["num_x_bits", "num_y_bits", "num_endpoints", "num_id_bits", "num_route_bits", "addr_offset_bits"])
+        routing[k] = rng.choice([1, 2, 3, 4, 9])
     return {
         "name": name, "description": "generated", "network_type": nettype, "routing": routing,
         "protocols": protocols(nettype, aw, rng),
@@ -339,7 +343,8 @@ def mesh_parts(rng, algo, nettype, alloc, m, n, rname, sides=None, partial_local
         conns.append({"src": ename, "dst": rname, "src_range": [[0, n - 1]], "dst_range": [[0, 0], [0, n - 1]], "dst_dir": "West"})
         conns.append({"src": ename, "dst": rname, "src_range": [[n, 2 * n - 1]], "dst_range": [[m - 1, m - 1], [0, n - 1]], "dst_dir": "East"})
     # G4: a second endpoint on the Eject port of the same routers (a port conflict floogen rejects)
-    if use_dirs and rng.random() < 0.04 and spare:
+    if use_dirs and rng.random() < 0.06 and spare:
+        extra_port = True
         ename = spare.pop()
         eps.append(mk_endpoint(rng, nettype, alloc, ename, array=[m, n], force_role="dual"))
         conns.append({"src": ename, "dst": rname, "src_range": [[0, m - 1], [0, n - 1]],
@@ -436,6 +441,29 @@ def gen_tree(rng, algo, nettype, tree=None):
         cc = {"src": rname, "dst": e, "src_lvl": 0}
         conns.append(cc if rng.random() < 0.6 else flip_conn(cc))
     return finish(rng, cfg, eps, [{"name": rname, "tree": tree}], conns)
+
+
+def gen_deep_tree(rng, algo, nettype, tree):
+    """a big router tree with endpoints on the root only (names with three numeric segments)"""
+    aw = 48
+    cfg = base_cfg(rng, "deep", nettype, algo, aw)
+    alloc = AddrAlloc(rng, aw)
+    eps, conns = [], []
+    for e in names(rng, 3):
+        eps.append(mk_endpoint(rng, nettype, alloc, e, force_role="dual"))
+        conns.append({"src": "router", "dst": e, "src_lvl": 0})
+    return finish(rng, cfg, eps, [{"name": "router", "tree": tree}], conns, shuffle=False)
+
+
+def gen_chain_express(rng, algo, nettype, m):
+    """an m x 1 row of routers with one endpoint each and an express link between its two ends"""
+    aw = 48
+    cfg = base_cfg(rng, "chain", nettype, algo, aw)
+    alloc = AddrAlloc(rng, aw)
+    ep = mk_endpoint(rng, nettype, alloc, "tile", array=[m], force_role="dual")
+    conns = [{"src": "tile", "dst": "router", "src_range": [[0, m - 1]], "dst_range": [[0, m - 1], [0, 0]], "dst_dir": "Eject"},
+             {"src": "router", "src_idx": [0, 0], "src_dir": "West", "dst": "router", "dst_idx": [m - 1, 0], "dst_dir": "East"}]
+    return finish(rng, cfg, [ep], [{"name": "router", "array": [m, 1], "degree": 5}], conns, shuffle=False)
 
 
 def gen_custom(rng, algo, nettype):
@@ -580,6 +608,8 @@ def gen_case(rng, families=None, algos=None, nettypes=None):
         algo = rng.choice(algos or ["XY", "ID", "SRC"])
         if algo == "XY" and fam != "mesh":
             fam = "mesh"
+            if (families is None or "custom" in families) and rng.random() < 0.1:
+                fam = "manual"
         if algo != "XY" and families is None or (families and "custom" in families and algo != "XY"):
             u = rng.random()
             if u < 0.03 and algo == "ID":
